@@ -257,8 +257,10 @@ class GFA:
     def remove_edge(self, edge):
         n1, side1, n2, side2, overlap = edge
 
-        if edge in self.edge_tags:
-            del self.edge_tags[edge]
+        # edge_tags is keyed by (node, side, node, side), in the direction the link was declared
+        for key in ((n1, side1, n2, side2), (n2, side2, n1, side1)):
+            if key in self.edge_tags:
+                del self.edge_tags[key]
 
         if side1 == 0:
             self.nodes[n1].remove_from_start(n2, side2, overlap)
